@@ -260,6 +260,9 @@ func (c connectUnaryServerProtocol) addProtocolRequestHeaders(meta requestMeta, 
 		headers.Set("Accept-Encoding", strings.Join(meta.acceptCompression, ", "))
 	}
 	headers.Set("Connect-Protocol-Version", "1")
+	// The only deadline the backend is told is the client's own: a header of this
+	// name among the client's metadata meant nothing in the client's protocol.
+	headers.Del("Connect-Timeout-Ms")
 	if meta.hasTimeout {
 		timeoutStr := connectEncodeTimeout(meta.timeout)
 		if timeoutStr != "" {
@@ -513,6 +516,7 @@ func (c connectStreamServerProtocol) addProtocolRequestHeaders(meta requestMeta,
 	if len(meta.acceptCompression) > 0 {
 		headers.Set("Connect-Accept-Encoding", strings.Join(meta.acceptCompression, ", "))
 	}
+	headers.Del("Connect-Timeout-Ms") // (see connectUnaryServerProtocol)
 	if meta.hasTimeout {
 		headers.Set("Connect-Timeout-Ms", connectEncodeTimeout(meta.timeout))
 	}
